@@ -11,6 +11,7 @@ import (
 	"path/filepath"
 	"sort"
 	"strconv"
+	"time"
 
 	"github.com/influxdata/influxdb/v2/pkg/durablequeue"
 	"verif/harness/rt"
@@ -26,6 +27,7 @@ type step struct {
 	N   int    `json:"n"`
 	Len int    `json:"len"`
 	K   int    `json:"k"`
+	C   int    `json:"c"`
 	Err string `json:"err"`
 	Exp struct {
 		Cur *struct {
@@ -34,8 +36,9 @@ type step struct {
 			Len int  `json:"len"`
 		} `json:"cur"`
 		Pending []int `json:"pending"`
-		Read    []int `json:"read"`
-		NSegs   int   `json:"nsegs"`
+		Read     []int `json:"read"`
+		NSegs    int   `json:"nsegs"`
+		MustKeep []int `json:"mustKeep"`
 	} `json:"exp"`
 }
 
@@ -309,6 +312,19 @@ func runRecord(c *recCase, env *rt.Env) rt.Result {
 	evals := 0
 	var drift []string
 	nontrivial := false
+	// logical clock: file mtimes are base + now seconds (PurgeOlderThan compares mtimes truncated to seconds)
+	base := time.Now().Add(-1000 * time.Second).Truncate(time.Second)
+	now := 0
+	stamp := func(before map[string][]byte) {
+		for name, b := range readAll(dir) {
+			if old, ok := before[name]; !ok || !bytes.Equal(old, b) {
+				t := base.Add(time.Duration(now) * time.Second)
+				os.Chtimes(filepath.Join(dir, name), t, t)
+			}
+		}
+	}
+	stamp(map[string][]byte{})
+	var pendingBefore []int
 	for i, s := range c.Steps {
 		before := readAll(dir)
 		var inflight []byte
@@ -365,6 +381,13 @@ func runRecord(c *recCase, env *rt.Env) rt.Result {
 				return rt.Fail(i, "scanner advance: "+err.Error(), err.Error(), nil)
 			}
 			nadv += s.K
+		case "tick":
+			now++
+		case "purge":
+			if err := q.PurgeOlderThan(base.Add(time.Duration(s.C) * time.Second)); err != nil {
+				return rt.Fail(i, "PurgeOlderThan: "+err.Error(), err.Error(), nil)
+			}
+			nontrivial = true
 		case "reopen":
 			if err := q.Close(); err != nil {
 				return rt.Infra("close: " + err.Error())
@@ -379,6 +402,7 @@ func runRecord(c *recCase, env *rt.Env) rt.Result {
 		default:
 			return rt.Infra("unknown action " + s.A)
 		}
+		stamp(before)
 		evals++
 		// observable 1: Current()
 		if s.Exp.Cur != nil {
@@ -399,9 +423,30 @@ func runRecord(c *recCase, env *rt.Env) rt.Result {
 		if oerr != nil || rerr != nil {
 			return rt.Fail(i, fmt.Sprintf("crash image after step does not recover: open=%v read=%v", oerr, rerr), nil, s.Exp.Pending)
 		}
-		if !eqInts(ids(del), s.Exp.Pending) {
+		if s.A == "purge" {
+			// contract: purge drops a prefix of the pending entries and keeps every entry appended at/after the cutoff
+			got := ids(del)
+			prev := pendingBefore
+			if len(got) > len(prev) || !eqInts(got, prev[len(prev)-len(got):]) {
+				return rt.Fail(i, "after purge the pending entries are not a suffix of the entries pending before", got, prev)
+			}
+			for _, k := range s.Exp.MustKeep {
+				found := false
+				for _, g := range got {
+					found = found || g == k
+				}
+				if !found {
+					return rt.Fail(i, fmt.Sprintf("purge dropped entry %d appended at/after the cutoff", k), got, s.Exp.MustKeep)
+				}
+			}
+			if !eqInts(got, s.Exp.Pending) {
+				drift = append(drift, "purge_drops_differ_from_model")
+			}
+			nadv += len(prev) - len(got)
+		} else if !eqInts(ids(del), s.Exp.Pending) {
 			return rt.Fail(i, "pending entries after step differ from appended[nadv+1..]", ids(del), s.Exp.Pending)
 		}
+		pendingBefore = ids(del)
 		for _, d := range del {
 			found := false
 			for _, a := range acked {
